@@ -30,22 +30,31 @@ VARIABLES S, rd, hdr, ws, dl, cap, pos, evs, sched, zr, pr,
 vars == <<S, rd, hdr, ws, dl, cap, pos, evs, sched, zr, pr, ref, tot>>
 
 
+\* the header: a stream descriptor without `hd` has the fixed valid header of H bytes
+HasHd(s) == "hd" \in DOMAIN s
+HL(s) == IF HasHd(s) THEN s.hd.hl ELSE H
+HOut(s) == IF HasHd(s) THEN HdrOutcome(s.hd) ELSE "ok"
+HNeed(s) == IF HasHd(s) THEN HdrNeed(s.hd) ELSE H
+HEv(s) == IF HasHd(s) THEN HdrEvent(s.hd) ELSE [e |-> "hdr"]
+
 Total(s) ==
   IF s.cut = 3 THEN s.cl
-  ELSE IF s.cut = 0 THEN H + ItemsLen(s.items)
+  ELSE IF s.cut = 0 THEN HL(s) + ItemsLen(s.items)
   ELSE LET n == Len(s.items)
            lastIt == s.items[n] IN
-       H + ItemsLen(SubSeq(s.items, 1, n - 1)) + (IF s.cut = 1 THEN KLen(lastIt) ELSE 0) + s.cl
+       HL(s) + ItemsLen(SubSeq(s.items, 1, n - 1)) + (IF s.cut = 1 THEN KLen(lastIt) ELSE 0) + s.cl
+\* how Reader::new ends ("" = it returns the header and a reader)
+HdrEnd(s) == IF HNeed(s) > Total(s) THEN "err:unexpected_end" ELSE IF HOut(s) = "ok" THEN "" ELSE HOut(s)
 
 WellFormed(s) ==
   /\ s.cut \in 0..3
   /\ s.cut = 0 => s.cl = 0
   /\ s.cut = 1 => Len(s.items) > 0 /\ s.cl < RLen(s.items[Len(s.items)])
   /\ s.cut = 2 => Len(s.items) > 0 /\ s.cl < KLen(s.items[Len(s.items)])
-  /\ s.cut = 3 => s.cl < H
+  /\ s.cut = 3 => s.cl < HL(s)
 
 \* <<message-id bytes, payload bytes>> the pending call needs from `pos`
-Need == IF ~hdr THEN <<IF S.cut = 3 THEN Inf ELSE H, 0>> ELSE CallNeed(S, rd)
+Need == IF ~hdr THEN <<IF HNeed(S) > tot THEN Inf ELSE HNeed(S), 0>> ELSE CallNeed(S, rd)
 Avail == dl - pos
 \* stream position committed so far *inside* the pending call
 Committed == IF Avail >= Need[1] THEN pos + Need[1] ELSE pos
@@ -56,7 +65,9 @@ Hist(h, x) == IF KeepHistory THEN Append(h, x) ELSE <<x>>
 Init0(s) ==
   /\ S = s /\ rd = Rd0 /\ hdr = FALSE /\ ws = 0 /\ dl = 0 /\ cap = 0 /\ pos = 0
   /\ evs = <<>> /\ sched = <<>> /\ zr = 0 /\ pr = Pr0
-  /\ ref = (IF s.ver = 0 THEN [ev |-> <<>>, end |-> ""] ELSE LET r == Read(s) IN [ev |-> r.ev, end |-> r.end])
+  /\ ref = (IF s.ver = 0 THEN [ev |-> <<>>, end |-> ""]
+            ELSE IF HdrEnd(s) # "" THEN [ev |-> <<>>, end |-> HdrEnd(s)]
+            ELSE LET r == Read(s) IN [ev |-> r.ev, end |-> r.end])
   /\ tot = Total(s)
 
 \* read_more: where the n bytes go
@@ -91,7 +102,9 @@ Emit ==
   /\ rd.end = "" /\ ~NeedMore
   /\ pos' = pos + Need[1] + Need[2]
   /\ IF ~hdr
-     THEN /\ hdr' = TRUE /\ rd' = rd /\ evs' = Hist(evs, [e |-> "hdr"]) /\ pr' = pr
+     THEN IF HOut(S) = "ok"
+          THEN /\ hdr' = TRUE /\ rd' = rd /\ evs' = Hist(evs, HEv(S)) /\ pr' = pr
+          ELSE /\ hdr' = hdr /\ rd' = [rd EXCEPT !.end = HOut(S)] /\ evs' = evs /\ pr' = pr
      ELSE LET r == Call(S, rd) IN
           /\ hdr' = hdr /\ rd' = r.st
           /\ evs' = IF r.out = NoOut THEN evs ELSE Hist(evs, r.out)
@@ -108,12 +121,13 @@ WindowInv == ws <= Committed /\ Committed <= dl /\ pos <= dl /\ dl - ws <= cap /
 \* independence of fragmentation: whatever the schedule, the events emitted so far are a
 \* prefix of the reference reading of the stream, and at the end they are equal to it
 Ref == ref
-DropHdr(e) == IF Len(e) > 0 /\ e[1] = [e |-> "hdr"] THEN Tail(e) ELSE e
+DropHdr(e) == IF Len(e) > 0 /\ e[1].e = "hdr" THEN Tail(e) ELSE e
 FragmentationFree ==
   LET e == DropHdr(evs) IN
   /\ Len(e) <= Len(Ref.ev) /\ e = SubSeq(Ref.ev, 1, Len(e))
-  /\ Done => \/ S.cut = 3 /\ e = <<>> /\ rd.end = "err:unexpected_end"
-             \/ S.cut # 3 /\ e = Ref.ev /\ rd.end = Ref.end
+  /\ Done => e = Ref.ev /\ rd.end = Ref.end
+  \* a good header is reported as what the document says it holds
+  /\ (hdr /\ Len(evs) > 0 /\ KeepHistory) => evs[1] = HEv(S)
 
 \* what the user relies on (ticks nested / increasing / as documented, values = sums)
 PropsHold ==
